@@ -1,6 +1,7 @@
 package verifh
 
 import (
+	"encoding/base32"
 	"encoding/hex"
 	"encoding/json"
 	"fmt"
@@ -630,6 +631,13 @@ func drawRestStep(t *rapid.T) restStep {
 	s := restStep{Ep: rapid.SampledFrom([]string{"totp-gen", "totp-gen", "totp-val", "totp-val", "hotp-gen", "hotp-gen", "hotp-val", "hotp-val", "ocra-gen", "ocra-gen", "ocra-val", "ocra-val",
 		"suites", "suite", "url", "secret", "chain-totp", "chain-hotp", "chain-ocra", "totp-val-now", "chain-ocra-both"}).Draw(t, "ep")}
 	s.Key = rapid.SliceOfN(rapid.Byte(), 1, 70).Draw(t, "key")
+	if rapid.IntRange(0, 3).Draw(t, "keyOfKinds") == 0 {
+		// the shared key generator: lengths around the hash block sizes, constant fills, key bytes that are themselves
+		// encoded text, keys whose base32 text reads as hex
+		if k := gen.Key().Draw(t, "keyK"); len(k) > 0 {
+			s.Key = k
+		}
+	}
 	s.Sp = gen.DrawSpelling(t)
 	s.Fresh = rapid.IntRange(0, 5).Draw(t, "fresh") == 0
 	if rapid.IntRange(0, 2).Draw(t, "httpVariantQ") == 0 {
@@ -821,4 +829,160 @@ func TestC18_Endpoints(t *testing.T) {
 		}
 		return c
 	})
+}
+
+// ---------------------------------------------------------------------------
+// Secret texts that look like another encoding, enumerated over all six code endpoints: base32 secrets that consist of
+// hex digits only (A-F, 2-7) with the length of a hex-written key or digest (16, 32, 40, 64, 128 characters), in upper
+// and lower case; base32 secrets made of decimal digits 2-7 only. A service (or library) that "recognises" hex or
+// decimal secrets keys the HMAC with other bytes than the base32 decoding.
+
+type c18LookCase struct {
+	Ep     string `json:"ep"`
+	Secret string `json:"secret"`
+}
+
+var c18Look = newPart("C18", "look-alike-secrets",
+	"complete: 6 code endpoints x base32 secret texts of 16 / 32 / 40 / 64 / 128 characters drawn from A-F and 2-7 only (constant, mixed, lower case) and from 2-7 only; oracle: the RFC reference under the base32 decoding of the text (generation: the code; validation: the reference's code is accepted); every case distinct and non-trivial",
+	func(c c18LookCase) verdict {
+		sv := server()
+		key, err := base32.StdEncoding.DecodeString(strings.ToUpper(c.Secret))
+		if err != nil {
+			return bad(true, nil, "HARNESS: %q is not base32", c.Secret)
+		}
+		labels := []string{"ep=" + c.Ep, fmt.Sprintf("len=%d", len(c.Secret))}
+		q := []byte("12345678")
+		ocraWant, _ := ref.OCRA(key, ref.OCRACfg{Raw: "OCRA-1:HOTP-SHA1-6:QN08", Hash: 0, Digits: 6, Q: true, QFormat: 1, SessionNN: -1}, ref.OCRAIn{Q: q})
+		var body map[string]any
+		var path, want string
+		switch c.Ep {
+		case "hotp-gen", "hotp-val":
+			want = ref.MustHOTP(key, 5, 6, 0)
+			body = map[string]any{"secret": c.Secret, "counter": 5, "digits": "6", "algorithm": "SHA1"}
+			path = "/hotp/generate"
+		case "totp-gen", "totp-val":
+			want = ref.MustHOTP(key, 1700000000/30, 6, 0)
+			body = map[string]any{"secret": c.Secret, "timestamp": 1700000000, "digits": "6", "algorithm": "SHA1", "period": 30}
+			path = "/totp/generate"
+		default:
+			want = ocraWant
+			body = map[string]any{"secret": c.Secret, "raw_suite": "OCRA-1:HOTP-SHA1-6:QN08", "input": map[string]any{"challenge_hex": fmt.Sprintf("%x", q)}}
+			path = "/ocra/generate"
+		}
+		if strings.HasSuffix(c.Ep, "-val") {
+			body["code"] = want
+			path = strings.Replace(path, "generate", "validate", 1)
+		}
+		b, _ := json.Marshal(body)
+		r := sv.do("POST", path, b, false, 15*time.Second)
+		if r.Err != nil || r.Status != 200 {
+			return bad(true, labels, "POST %s %s -> %s", path, b, r.brief())
+		}
+		if strings.HasSuffix(c.Ep, "-val") {
+			if v, _ := r.JSON["valid"].(bool); !v {
+				return bad(true, labels, "POST %s %s -> %s; %q is the RFC code under the base32 decoding of the secret", path, b, r.brief(), want)
+			}
+		} else if r.str("code") != want {
+			return bad(true, labels, "POST %s %s -> %s; the RFC code under the base32 decoding of the secret is %q", path, b, r.brief(), want)
+		}
+		return ok(true, labels...)
+	})
+
+func TestC18_LookAlikeSecrets(t *testing.T) {
+	defer c18Look.rec().Flush()
+	var secrets []string
+	for _, l := range []int{16, 32, 40, 64, 128} {
+		mixed := strings.Repeat("ABCDEF234567", 11)[:l]
+		secrets = append(secrets, strings.Repeat("A", l), strings.Repeat("F", l), strings.Repeat("7", l), mixed, strings.ToLower(mixed),
+			strings.Repeat("BEEFCAFE", 16)[:l], strings.Repeat("234567", 22)[:l], strings.Repeat("DEADBEEF", 16)[:l])
+	}
+	i := 0
+	for _, ep := range []string{"hotp-gen", "hotp-val", "totp-gen", "totp-val", "ocra-gen", "ocra-val"} {
+		for _, s := range secrets {
+			i++
+			if ev.Mine(i) {
+				c18Look.each(t, c18LookCase{Ep: ep, Secret: s})
+			}
+		}
+	}
+	c18Look.rec().Exhaustive()
+}
+
+// ---------------------------------------------------------------------------
+// Validations that follow an accepted neighbour, enumerated: under one secret a code of a neighbouring step (or counter)
+// is accepted within a window, then exact validations follow. A service that "learns" from the first acceptance (a
+// recorded clock drift, a moved counter, a remembered offset) answers the later requests for other parameters than
+// the ones they carry.
+
+type c18DriftCase struct {
+	Kind string `json:"kind"` // totp | hotp
+	D    int    `json:"d"`    // distance of the accepted neighbour
+	Skew int    `json:"skew"`
+}
+
+var c18Drift = newPart("C18", "after-an-accepted-neighbour",
+	"complete: {totp, hotp} x neighbour distance d in {-3..3} \\ {0} x window {|d|, 10}: under a secret of its own, validate the code of step n+d within the window (accepted), then with window 0: the code of n (accepted), the code of n+d (rejected), generation at n (the RFC code), and the same three ten steps later; oracle: reference window membership for exactly each request's parameters; every case distinct and non-trivial",
+	func(c c18DriftCase) verdict {
+		sv := server()
+		key := []byte(fmt.Sprintf("drift-%s-%d-%d-key", c.Kind, c.D, c.Skew))
+		secret := ref.B32(key)
+		labels := []string{"kind=" + c.Kind, fmt.Sprintf("d=%d", c.D)}
+		const period = 30
+		base := uint64(1_700_000_000 / period)
+		if c.Kind == "hotp" {
+			base = 1000
+		}
+		val := func(step uint64, at uint64, skew int) (bool, string) {
+			code := ref.MustHOTP(key, step, 6, 0)
+			var body map[string]any
+			path := "/totp/validate"
+			if c.Kind == "totp" {
+				body = map[string]any{"secret": secret, "code": code, "timestamp": at*period + 7, "digits": "6", "algorithm": "SHA1", "period": period, "skew": skew}
+			} else {
+				body = map[string]any{"secret": secret, "code": code, "counter": at, "digits": "6", "algorithm": "SHA1", "skew": skew}
+				path = "/hotp/validate"
+			}
+			b, _ := json.Marshal(body)
+			r := sv.do("POST", path, b, false, 15*time.Second)
+			v, _ := r.JSON["valid"].(bool)
+			return v && r.Err == nil && r.Status == 200, fmt.Sprintf("POST %s %s -> %s", path, b, r.brief())
+		}
+		type step struct {
+			code, at uint64
+			skew     int
+			want     bool
+		}
+		nb := uint64(int64(base) + int64(c.D))
+		later := base + 10
+		seq := []step{{nb, base, c.Skew, true}, {base, base, 0, true}, {nb, base, 0, false}, {base, base, 0, true},
+			{later, later, 0, true}, {uint64(int64(later) + int64(c.D)), later, 0, false}, {nb, base, c.Skew, true}, {base, base, 0, true}}
+		for i, s := range seq {
+			if got, what := val(s.code, s.at, s.skew); got != s.want {
+				return bad(true, labels, "request %d of the session: %s; the code is that of step %d, validated at step %d with window %d: reference says %v", i+1, what, s.code, s.at, s.skew, s.want)
+			}
+		}
+		return ok(true, labels...)
+	})
+
+func TestC18_AfterAnAcceptedNeighbour(t *testing.T) {
+	defer c18Drift.rec().Flush()
+	i := 0
+	for _, kind := range []string{"totp", "hotp"} {
+		for _, d := range []int{-3, -2, -1, 1, 2, 3} {
+			for _, skew := range []int{0, 10} {
+				sk := skew
+				if sk == 0 {
+					sk = d
+					if sk < 0 {
+						sk = -sk
+					}
+				}
+				i++
+				if ev.Mine(i) {
+					c18Drift.each(t, c18DriftCase{Kind: kind, D: d, Skew: sk})
+				}
+			}
+		}
+	}
+	c18Drift.rec().Exhaustive()
 }
